@@ -8,7 +8,7 @@ temperatures with tenths in the nibbles of byte 15; byte 13 low 5 bits alternate
 filter; byte 14 display; byte 19 low 7 bits humidity; byte 21 bit7 8-degree heat.
 Reading notes (DESIGN.md 4-C11): alternate set-point = code + 12 on all 31 codes; aux heat = bit 3.
 """
-from pyvc.dsl import contract, fields, fold, implies, lemma, old, opaque
+from pyvc.dsl import conforms, contract, fields, fold, implies, lemma, old, opaque
 from contracts.frame import addck, crc8, frame_spec, wf_frame
 from msmart.device.AC.command import (CapabilitiesResponse, EnergyUsageResponse, HumidityResponse, PropertiesResponse,
                                       Response, StateResponse)
@@ -66,12 +66,12 @@ def absf(x):
 
 
 fields(CMD + "Response", _id="int", _payload="bytes")
-fields(CMD + "StateResponse", power_on="opt:bool", target_temperature="opt:float", operational_mode="opt:int",
-       fan_speed="opt:int", swing_mode="opt:int", turbo="opt:bool", eco="opt:bool", sleep="opt:bool", fahrenheit="opt:bool",
+fields(CMD + "StateResponse", power_on="opt:bool", target_temperature="opt:float", operational_mode="opt:int[0,7]",
+       fan_speed="int[0,255]", swing_mode="opt:int[0,15]", turbo="opt:bool", eco="opt:bool", sleep="opt:bool", fahrenheit="opt:bool",
        indoor_temperature="opt:float", outdoor_temperature="opt:float", filter_alert="opt:bool", display_on="opt:bool",
-       freeze_protection="opt:bool", follow_me="opt:bool", purifier="opt:bool", target_humidity="opt:int",
+       freeze_protection="opt:bool", follow_me="opt:bool", purifier="opt:bool", target_humidity="opt:int[0,127]",
        aux_heat="opt:bool", independent_aux_heat="opt:bool")
-fields(CMD + "HumidityResponse", humidity="opt:int")
+fields(CMD + "HumidityResponse", humidity="opt:int[0,255]")
 fields(CMD + "EnergyUsageResponse", total_energy="opt:float", current_energy="opt:float", real_time_power="opt:float",
        total_energy_binary="opt:float", current_energy_binary="opt:float", real_time_power_binary="opt:float")
 
@@ -161,6 +161,7 @@ contract(CMD + "StateResponse.__init__",
          calls_inline=[CMD + "StateResponse._parse", CMD + "StateResponse._parse_temperature"],
          post_let={"D": "state_decode(payload)"},
          ensures={"len": "len(payload) >= 16",
+                  "declared_attribute_types_hold": "conforms(self)",
                   "id": "self._id == payload[0] and self._payload == payload",
                   "power": "self.power_on == D['power']", "mode": "self.operational_mode == D['mode']",
                   "temperature": "self.target_temperature == D['temperature']", "fan": "self.fan_speed == D['fan']",
